@@ -810,10 +810,13 @@ ImageCtx imageCtx(const Recorded &r, int m, uint64_t cut)
   I.shape = boundary ? "none" : shapeOf(r, m, cut);
   return I;
 }
+// The JSON store has one whole-store state: any content mismatch of the simpler variant explains the
+// content mismatch of the richer one (e.g. a store that came up empty and then flushed the further call shows
+// a "foreign" state that is the empty-store finding one step later); only a throwing reopen is a kind of its own.
 const Finding *sameFinding(const std::vector<Finding> &v, const Finding &f)
 {
   for (auto &g : v)
-    if (g.kind == f.kind)
+    if ((g.kind == "throws") == (f.kind == "throws"))
       return &g;
   return nullptr;
 }
@@ -866,6 +869,7 @@ void evalPoint(Ctx &c, const Level1 &L, const Point &cp, const std::vector<Cont>
   {
     std::string shape;
     Cont ct;
+    std::string kind; // kind of the finding in the minimal shape
   };
   std::function<Reduced(const Cont &, const Finding &)> reduce = [&](const Cont &ct, const Finding &f) -> Reduced
   {
@@ -882,9 +886,9 @@ void evalPoint(Ctx &c, const Level1 &L, const Point &cp, const std::vector<Cont>
         return reduce(z, *g);
     }
     if (I.shape != "none" && ct.kind != 'd')
-      if (sameFinding(run(1, ct, false), f))
-        return Reduced{"none", ct};
-    return Reduced{I.shape, ct};
+      if (const Finding *g = sameFinding(run(1, ct, false), f))
+        return Reduced{"none", ct, g->kind};
+    return Reduced{I.shape, ct, f.kind};
   };
   bool nontrivial = cp.cut > 0 || I.A.size() > 1;
   for (const Cont &ct : conts)
@@ -895,7 +899,7 @@ void evalPoint(Ctx &c, const Level1 &L, const Point &cp, const std::vector<Cont>
     for (const Finding &f : fs)
     {
       Reduced rd = reduce(ct, f);
-      std::string sig = f.kind + ":crash=" + rd.shape + ":cont=" + std::string(1, rd.ct.kind);
+      std::string sig = rd.kind + ":crash=" + rd.shape + ":cont=" + std::string(1, rd.ct.kind);
       CaseId cid = id;
       cid.cont = ct;
       cid.m2 = f.m2;
